@@ -196,6 +196,8 @@ func (b *TemplateBuilder) buildTranslate() {
 		// the rule text becomes part of a Go string literal used as a Printf
 		// format: quote and percent characters of literal tokens are escaped
 		strTrace = strings.NewReplacer("\\", "\\\\", "\"", "\\\"", "%", "%%").Replace(strTrace)
+		// a literal token may also be a line break (' followed by a newline and ')
+		strTrace = strings.NewReplacer("\n", "\\n", "\r", "\\r").Replace(strTrace)
 		caseCode += fmt.Sprintf("\n\t\tfmt.Printf(\"look ahead %%s, %s, go to state %%d\\n\", look, s)\n", strTrace)
 	}
 	b.ReduceTrace = caseCode
